@@ -2646,7 +2646,7 @@ class sptensor:
                 subs = self.subs[idx.transpose()[0]]
             return sptensor(
                 subs,
-                True * np.ones((self.subs.shape[0], 1)).astype(self.vals.dtype),
+                True * np.ones((subs.shape[0], 1)).astype(self.vals.dtype),
                 self.shape,
             )
 
@@ -2739,7 +2739,7 @@ class sptensor:
         if isinstance(other, (float, int)):
             if other == 0:
                 return ttb.sptensor(
-                    self.subs, True * np.ones((self.subs.shape[0], 1)), self.shape
+                    self.subs, True * np.ones((self.nnz, 1)), self.shape
                 )
             subs1 = np.empty(shape=(0, self.ndims), dtype=int)
             if self.nnz > 0:
@@ -2748,7 +2748,8 @@ class sptensor:
             subs2 = self.allsubs()[subs2Idx, :]
             return ttb.sptensor(
                 np.vstack((subs1, subs2)),
-                True * np.ones((subs2.shape[0], 1)).astype(self.vals.dtype),
+                True
+                * np.ones((subs1.shape[0] + subs2.shape[0], 1)).astype(self.vals.dtype),
                 self.shape,
             )
 
